@@ -7,6 +7,7 @@ CONSTANTS
   Ambients = {"A", "B", "none"}
   Threads = {"main", "other"}
   Resolution = "captured"
+  UnwindDrops = TRUE
   Depth = 5
 SPECIFICATION RSpec
 INVARIANT Emit
